@@ -771,6 +771,23 @@ def register_core(M):
     @reg('cmp::max', 'cmp::min', 'Ord::max', 'Ord::min')
     def _(ex, info, a, dty):
         x, y = ex.materialize(a[0]), ex.materialize(a[1])
+        if isinstance(x, Adt) or isinstance(y, Adt):
+            # Option<scalar>: None < Some(_), Some ordered by payload (derived Ord)
+            dx, dy = M.discr(ex, x), M.discr(ex, y)
+            def pay(v, d):
+                if conc(z3.simplify(d)) == 0:
+                    return bv(0)
+                p = ex.materialize(ex.field_of(v, 1, 0, 'usize'), 'usize')
+                if not z3.is_bv(p):
+                    raise Inconclusive('cmp::min/max on %r' % (v,))
+                return p
+            px, py = pay(x, dx), pay(y, dy)
+            lt = z3.Or(z3.ULT(dx, dy), z3.And(dx == dy, dx == bv(1), z3.ULT(px, py)))
+            pick_x = lt if info['method'] == 'min' else z3.Not(lt)
+            # std: min returns the first argument on ties, max the second
+            if info['method'] == 'min':
+                pick_x = z3.Or(lt, z3.And(dx == dy, z3.Or(dx == bv(0), px == py)))
+            return x if ex.branch(pick_x) else y
         if info['method'] == 'max':
             return z3.If(z3.UGT(x, y), x, y)
         return z3.If(z3.ULT(x, y), x, y)
